@@ -20,20 +20,12 @@ RULE = ("shared vsock generators plus a WAKE stream (readers/writers parked at e
         "non-trivial = >= 3 polls and data exchanged; distinct = distinct case line")
 
 # (id, classifier predicate (negated form registered in the driver), predicate it explains, text)
+# D2, D8 and D14 are repaired (known_findings.json `fixed`): c02_shutdown_wakes, c02_eof_wakes and c02_rto_armed must
+# simply hold now, no class explains a failure of theirs any more.
 CLASSIFIERS = [
-    ("D2", "c02_d2_class_neg", "c02_shutdown_wakes",
-     "poll_shutdown on an idle connection sets writer_shutdown but does not wake the parked dispatcher "
-     "(stream_tx.rs poll_shutdown): the FIN waits for an unrelated wake-up"),
-    ("D8", "c02_d8_class_neg", "c02_eof_wakes",
-     "UserRx::flush wakes the reader only if flushed_bytes > 0: an in-sequence FIN flushed alone (EOF, 0 bytes) wakes "
-     "nobody although poll_read would now return EOF"),
     ("D9", "c02_d9_class_neg", "c02_zero_window_waker",
      "UserRx::flush registers the dispatcher waker against the CREATION-time MSS while rx_window() rounds down to the "
      "CURRENT MSS: zero window advertised, no waker registered, no window update when the reader drains"),
-    ("D14", "c02_d14_class_neg", "c02_rto_armed",
-     "split_tx_queue_into_segments turns the retransmit timer off when it pops an expired MTU probe "
-     "(stream_dispatch.rs:823) although other segments are still outstanding; if the congestion window admits no "
-     "new segment nothing re-arms it: outstanding data with no retransmission timer"),
 ]
 
 
